@@ -449,3 +449,125 @@ def generic_replay(ctx, obj):
         return 0
     print(json.dumps(obj, indent=1))
     return 0
+
+
+# ------------------------------------------------------------------------------------------
+# steptrace: atomic-step traces of the instrumented implementation vs the L2 model
+
+STEPTRACE = os.path.join(HARNESS, "target-trace", "release", "steptrace")
+_trace_built = None
+
+
+def build_trace(ctx):
+    """regenerates the instrumented drop-in from /repo's working tree and builds steptrace with it"""
+    global _trace_built
+    if _trace_built is not None:
+        return _trace_built
+    t = time.time()
+    rc, out, err = sh(["./build_trace.sh"], cwd=HARNESS, timeout=3000)
+    _trace_built = (rc == 0, (out + err))
+    if rc != 0:
+        errs = [l for l in (out + err).split("\n") if l.startswith("error") or "dropin_gen" in l]
+        ctx.log("[steptrace] build failed:\n" + "\n".join(errs[:20]))
+    else:
+        ctx.log(f"[steptrace] drop-in regenerated from {REPO}, built ({time.time()-t:.1f}s)")
+    return _trace_built
+
+
+def split_execs(lines):
+    execs, cur = [], None
+    for l in lines:
+        if l.startswith("prog "):
+            cur = {"prog": l, "lines": [], "sched": ""}
+        elif cur is None:
+            continue
+        elif l.startswith("sched"):
+            cur["sched"] = l
+        elif l.startswith("end"):
+            cur["end"] = l
+            execs.append(cur)
+            cur = None
+        else:
+            cur["lines"].append(l)
+    return execs
+
+
+def compare_exec(impl_lines, model_lines):
+    """line by line; the variable (3rd token) is compared modulo a bijection impl address <-> model name.
+    Pointer-distance loads (`dist*`) carry a layout constant: value not compared."""
+    fwd, bwd = {}, {}
+    n = max(len(impl_lines), len(model_lines))
+    for i in range(n):
+        a = impl_lines[i] if i < len(impl_lines) else "<none>"
+        b = model_lines[i] if i < len(model_lines) else "<none>"
+        ta, tb = a.split(" "), b.split(" ")
+        if len(ta) >= 3 and len(tb) >= 3 and ta[1] == tb[1] and ta[1] not in ("ret", "fence", "crit", "PANIC"):
+            va, vb = ta[2], tb[2]
+            # `own*`: flags of short-lived storage handles; their addresses are reused by the allocator
+            # `state[k]`: memory of a destroyed incarnation may be reused for a later one (one address, several names)
+            reuse_ok = vb.startswith("state[")
+            if not vb.startswith("own") and ((not reuse_ok and fwd.setdefault(va, vb) != vb) or bwd.setdefault(vb, va) != va):
+                return i, a, b + f"   (variable mapping inconsistent: {va} was {fwd.get(va)}, {vb} was {bwd.get(vb)})"
+            ra, rb = ta[:2] + ta[3:], tb[:2] + tb[3:]
+            if vb.startswith("dist"):
+                ra, rb = [x for x in ra if not x.startswith("v=")], [x for x in rb if not x.startswith("v=")]
+            if ra != rb:
+                return i, a, b
+        elif a != b:
+            return i, a, b
+    return None
+
+
+def trace_component(ctx, component, args, label=None, driver_component=None, oracle=None):
+    """runs steptrace, replays every execution on the L2 model, compares the event streams.
+    `oracle(exec)` may evaluate the property directly on the implementation's trace and return a
+    finding key or None."""
+    label = label or component
+    t = time.time()
+    p = subprocess.run([STEPTRACE, component] + [str(a) for a in args], capture_output=True, text=True, timeout=3000)
+    if p.returncode != 0:
+        ctx.violation(f"{label}:steptrace-crash", f"steptrace {component} exited {p.returncode}: {p.stderr[-300:]}",
+                      dict(engine="steptrace", component=component, args=[str(a) for a in args], stderr=p.stderr[-2000:]), nfi=True)
+        return
+    execs = split_execs(p.stdout.split("\n"))
+    feed = []
+    for e in execs:
+        feed.append(e["prog"]); feed += e["lines"]; feed.append("end")
+    model_out = run_model(driver_component or component, "\n".join(feed) + "\n")
+    mexecs = split_execs(model_out)
+    bad = {}
+    sigs = set()
+    for k, e in enumerate(execs):
+        ctx.evaluations += 1
+        tids = "".join(l.split(" ")[0][1:] for l in e["lines"] if " ret " not in l)
+        ctx.distinct.add((label, e["prog"], tids))
+        for l in e["lines"]:
+            tk = l.split(" ")
+            ctx.count(f"{label}.ev.{tk[1]}")
+        m = mexecs[k]["lines"] if k < len(mexecs) else []
+        for l in m:
+            tk = l.split(" ")
+            if len(tk) > 3 and tk[1] != "ret":
+                sigs.add(f"{tk[1]} {tk[2].split('[')[0]} {tk[3] if tk[1] != 'cell' else ''}".strip())
+        r = compare_exec(e["lines"], m)
+        key = None
+        if r is not None:
+            i, a, b = r
+            key = f"{label}:trace:{(b.split(' ') + ['?', '?'])[1]}"
+            what = f"{component}: implementation trace and L2 model differ at event {i}: impl `{a}` vs model `{b}`"
+        elif oracle is not None:
+            e["model_end"] = mexecs[k].get("end", "") if k < len(mexecs) else ""
+            okey = oracle(e)
+            if okey:
+                key = f"{label}:oracle:{okey}"
+                what = f"{component}: property oracle failed on the implementation's trace: {okey}"
+        if key and key not in bad:
+            bad[key] = (e, m, what)
+    ctx.extra.setdefault("model_step_kinds_covered", {})[label] = sorted(sigs)
+    if execs and len(ctx.samples) < 8:
+        e = execs[len(execs) // 2]
+        ctx.samples.append({"component": label, "prog": e["prog"], "trace": e["lines"][:16], "sched": e["sched"]})
+    ctx.log(f"[steptrace] {label}: {len(execs)} executions, {sum(len(e['lines']) for e in execs)} events, {len(sigs)} model step kinds, {len(bad)} mismatch class(es) ({time.time()-t:.1f}s)")
+    for key, (e, m, what) in list(bad.items())[:6]:
+        ctx.violation(key, what, dict(engine="steptrace", component=component, prog=e["prog"], sched=e["sched"], impl=e["lines"], model=m))
+    return execs
